@@ -2221,7 +2221,7 @@ impl Archive {
     ///
     /// The checksum follows the stored data. As for the sectors of other files it is the
     /// ADLER32 of the data as stored: `stored` is the data after decryption and before
-    /// decompression. The values 0 and 0xFFFFFFFF mean that there is no checksum.
+    /// decompression.
     ///
     /// Earlier versions of `ArchiveBuilder` wrote the checksum of the original file
     /// content instead. For compressed files that one is accepted as well, so that
@@ -2238,11 +2238,12 @@ impl Archive {
         let mut checksum_bytes = [0u8; 4];
         self.reader.read_exact(&mut checksum_bytes)?;
         let expected = u32::from_le_bytes(checksum_bytes);
-        if expected == 0 || expected == 0xFFFF_FFFF {
-            return Ok(());
-        }
 
-        // MPQ uses ADLER32 for sector checksums, not CRC32 despite the name
+        // MPQ uses ADLER32 for sector checksums, not CRC32 despite the name. Unlike the
+        // entries of a checksum sector, the value is always compared: the checksum behind
+        // a single unit file is written by this library only, which never writes a "no
+        // checksum" marker, and accepting one would let an overwrite that also clears
+        // the checksum go unnoticed.
         let actual = adler2::adler32_slice(stored);
         if actual == expected {
             log::debug!("Single unit file CRC validated: 0x{actual:08X}");
